@@ -312,6 +312,12 @@ func (t *tlopen) handle(cs *connState) message {
 		qid    QID
 		ioUnit uint32
 	)
+
+	// Two Tlopen on one fid must not both pass the opened test below: that
+	// only takes a read lock, and opened is set after it is dropped.
+	ref.openedMu.Lock()
+	defer ref.openedMu.Unlock()
+
 	if err := ref.safelyRead(func() (err error) {
 		// Has it been deleted already?
 		if ref.isDeleted() {
